@@ -449,6 +449,13 @@ func (u *Unit) evalIdent(st *State, x *ast.Ident) Val {
 		}
 		return scalar("0", SInt, T)
 	case *types.Var:
+		if bv, boxed := st.ghost["&"+fmt.Sprint(o.Pos())]; boxed && !isStructVal(o.Type()) && !isArrayT(o.Type()) {
+			// the variable's address has been taken: its value lives in the cell (writes through the pointer count)
+			if cv, ok := st.vars[o]; ok && cv.Closure != nil {
+				return cv
+			}
+			return u.loadAt(st, "P$"+typeKey(o.Type()), o.Type(), bv.S)
+		}
 		if v, ok := st.vars[o]; ok {
 			return v
 		}
@@ -533,7 +540,7 @@ func (u *Unit) addrOf(st *State, e ast.Expr) Val {
 			return scalar(bv.S, SInt, T)
 		}
 		r := u.alloc(st, "addr."+x.Name)
-		u.storeAt(st, "P$"+typeKey(v.T), v.T, r, v)
+		u.storeAt(st, "P$"+typeKey(o.Type()), o.Type(), r, u.coerce(st, v, o.Type()))
 		st.ghost["&"+fmt.Sprint(o.Pos())] = intVal(r)
 		u.note("assumptions", "address-taken scalar local "+x.Name+" modelled as boxed cell; later direct reads of the variable see the cell")
 		return scalar(r, SInt, T)
